@@ -327,6 +327,8 @@ impl<T: Types> FlushWorker<T> {
         crate::verif_hooks::at("worker.evictable", 0);
         {
             let mut cache = self.cache.write().unwrap();
+            #[cfg(feature = "verif-hooks")]
+            crate::verif_hooks::at("worker.evictable.locked", 0);
             cache.set_last_evictable(f.prev_last_log_id.clone());
         }
 
